@@ -64,14 +64,16 @@ func readerFamily(tier universe.Tier) *family {
 			mk(fd(1, D, universe.MapOf(sc(ref.KString), universe.StVal(fx())))),
 			mk(fd(1, D, universe.SetOf(universe.StPtr(fx()))), fd(2, O, universe.StPtr(fx()))),
 		)
+		// a reader that retains unknown fields (among the readers that take schema edits in every tier: only an
+		// edited writer sends it fields it does not know)
+		withUnk := mk(fd(1, D, sc(ref.KI32)), fd(4, D, universe.StPtr(in)))
+		withUnk.Unknown = true
+		f.items = append(f.items, withUnk)
 		c03Core = len(f.items) + 6 // readers beyond this index take no schema edits in the quick tier
 		f.items = append(f.items, denseIDs().items...)
 		for _, id := range []uint16{511, 512, 1023, 1024, 1025, 2047, 2048, 4095, 4096, 8191, 8192, 16384} {
 			f.items = append(f.items, mk(fd(id-1, D, sc(ref.KI32)), fd(id, R, sc(ref.KString)), fd(id+1, O, sc(ref.KI64))))
 		}
-		withUnk := mk(fd(1, D, sc(ref.KI32)), fd(4, D, universe.StPtr(in)))
-		withUnk.Unknown = true
-		f.items = append(f.items, withUnk)
 		return f
 	})
 }
